@@ -221,6 +221,7 @@ fn judge(ctx: &mut Ctx, p: &Params, cfg: &Cfg, st: &Step<Ages>) -> Vec<(String, 
             }
         }
     }
+    ctx.outcome(&(st.action.name.as_str(), st.post.iter().map(|r| (r.key, r.age)).collect::<Vec<_>>()));
     // (e) size bound
     let live = st.post_aux.values().filter(|a| **a < lim).count();
     if st.post.len() > live + 12 {
